@@ -195,14 +195,20 @@ Definition is_sess_type (t : str) : bool := mem_str t noreply_msgs.
 Definition gap_fill_msg (from to : Z) : msg :=
   mkMsg MT_SEQUENCERESET (Some from) [(T_GapFillFlag, V_Y); (T_NewSeqNo, z_to_dec to)].
 
-(* replay_msg[PossDupFlag] = "Y"; replay_msg[OrigSendingTime] = replay_msg[SendingTime]; then the
-   header tags 35, 8, 9, 52, 49, 56, 10 are deleted (they exist in every decoded frame).  Setting a
-   tag that is already present raises DuplicatedTagError. *)
-Definition mk_replay (r : row) : option msg :=
-  if has_tag T_PossDupFlag (r_body r) then None
-  else if has_tag T_OrigSendingTime (r_body r ++ [(T_PossDupFlag, V_Y)]) then None
-  else Some (mkMsg (r_type r) (Some (r_seq r))
-                   (r_body r ++ [(T_PossDupFlag, V_Y); (T_OrigSendingTime, r_time r)])).
+(* FIXContainer.set(tag, value, replace=True) on the (ordered) tag dictionary: the value of an existing
+   tag is overwritten in place, a new tag is appended *)
+Fixpoint upsert (t v : str) (fs : list field) : list field :=
+  match fs with
+  | [] => [(t, v)]
+  | fd :: rest => if str_eqb (fst fd) t then (t, v) :: rest else fd :: upsert t v rest
+  end.
+
+(* replay_msg.set(PossDupFlag, "Y", replace=True);
+   replay_msg.set(OrigSendingTime, replay_msg[SendingTime], replace=True); then the header tags
+   35, 8, 9, 52, 49, 56, 10 are deleted (they exist in every decoded frame) *)
+Definition mk_replay (r : row) : msg :=
+  mkMsg (r_type r) (Some (r_seq r))
+        (upsert T_OrigSendingTime (r_time r) (upsert T_PossDupFlag V_Y (r_body r))).
 
 Definition note_call (n : Z) (s : st) : st :=
   mkSt (cstate s) (initiator s) (testreq_pending s) (nout s) (sout s) (clock s) (rows s) (wire s)
@@ -226,13 +232,9 @@ Fixpoint replay_loop (f : row -> bool) (rs : list row) (gfb gfe : Z) (s : st) : 
           match (if gfb <? gfe then send_msg (gap_fill_msg gfb gfe) s else Ok s) with
           | Exc e s' => LExc e s'
           | Ok s1 =>
-              match mk_replay r with
-              | None => LExc EDuplicatedTag s1
-              | Some m =>
-                  match send_msg m s1 with
-                  | Exc e s' => LExc e s'
-                  | Ok s2 => replay_loop f rest (n + 1) gfe s2
-                  end
+              match send_msg (mk_replay r) s1 with
+              | Exc e s' => LExc e s'
+              | Ok s2 => replay_loop f rest (n + 1) gfe s2
               end
           end
   end.
@@ -242,7 +244,8 @@ Definition fits_int64 (z : Z) : bool := (INT64_MIN <=? z) && (z <=? INT64_MAX).
 (* the handler after BeginSeqNo / EndSeqNo were read: b = int(tag 7), e0 = int(tag 16).
    session.next_num_out and the journal are not touched (the two set_seq_num calls are gone). *)
 Definition resend_body (f : row -> bool) (b e0 : Z) (s : st) : st * option exc :=
-    let e := if e0 =? 0 then sys_maxsize else e0 in
+    (* if end_seq_no == 0 or end_seq_no > sys.maxsize: end_seq_no = sys.maxsize *)
+    let e := if (e0 =? 0) || (sys_maxsize <? e0) then sys_maxsize else e0 in
     (* sqlite3 refuses to bind integers outside 64 bits (OverflowError) *)
     if negb (fits_int64 b && fits_int64 e) then (s, Some EOverflow) else
     let replay := recover b e (rows s) in
